@@ -3,6 +3,14 @@ CLAIMED = {
         "Within the bounds (<=3 entries x <=2 bins quick; <=4 x <=3 thorough; <=3 batches) every path of the real HistContainer fill/merge/rebin code is explored and the bin, underflow, overflow and total counts are proved equal to half-open interval counting for ALL real-valued edges and entries on that path (incl. entries equal to edges, repeated edges), for every enumerated batching / read interleaving / rebinning.",
         "Trusted: symx engine, symnp shim (np.sort as a compare-exchange network), z3. Floats as reals (comparisons only, so exact). Outside: NaN/inf entries, sizes beyond the bound.",
         "DESIGN.md 4/C12", None),
+    "C13": (
+        "For polynomial densities with symbolic coefficients and symbolic (strictly ascending) bin edges, the real HistParametricModel bin evaluation (midpoint, trapezoid, Simpson, antiderivative) is proved equal to the exact integral for every degree up to the rule's exactness degree, and the degree+1 case is refuted (sensitivity twins pin weights and nodes). Re-evaluation after parameter change / rebin, and HistFit.model = integral x number of entries iff density, are proved for all values.",
+        "Trusted: symx, symnp, z3 (polynomial identities over the reals). Outside: bin_evaluation='numerical' (scipy quad, FFI), non-polynomial densities, convergence orders.",
+        "DESIGN.md 4/C13", None),
+    "C02": (
+        "For every enumerated container kind (indexed, xy per axis, histogram, and the three parametric models) x source mix (simple abs/rel, matrix cov/cor, abs/rel) x short history (add, disable, enable, value change, interleaved reads) the real container code is executed symbolically and total cov_mat == sum of enabled (sigma sigma^T) o rho at the CURRENT values, err^2 == diag, cor*sigma sigma^T == cov, cov*inverse == I, symmetry and PSD are proved for all values of data, errors, rho, matrices (n=2; n=3 in thorough).",
+        "Trusted: symx, symnp, solver portfolio, the 10-line oracle in props/C02.py. Floats as reals. Outside: n>3, histories longer than the enumerated ones.",
+        "DESIGN.md 4/C02", None),
 }
 _NYB = "check not built yet in this round (design in DESIGN.md section 4); no claim is made"
-NA = {p: _NYB for p in ["C01","C02","C03","C04","C05","C06","C07","C08","C09","C10","C11","C13","C14","C15","C16","C17","C18","C19"]}
+NA = {p: _NYB for p in ["C01","C03","C04","C05","C06","C07","C08","C09","C10","C11","C14","C15","C16","C17","C18","C19"]}
